@@ -7,3 +7,5 @@ import AM.Lemmas.InhibitLegacy
 import AM.Props.C03
 import AM.Model.Ingest
 import AM.Props.C13
+import AM.Model.Workers
+import AM.Props.C14
